@@ -328,11 +328,20 @@ def _maybe_persist_memory(
                 arr.persist()
 
 
+class _LoadedOutput(NamedTuple):
+    """Output(s) that were found complete in the store: the stored value, or one value per output name."""
+
+    value: Any
+
+
 def _dump_single_output(
     func: PipeFunc,
     output: Any,
     store: dict[str, StoreType],
 ) -> tuple[Any, ...]:
+    if isinstance(output, _LoadedOutput):
+        # Already stored (resumed run): these are the picked values, nothing to pick or dump again
+        return tuple(output.value) if isinstance(func.output_name, tuple) else (output.value,)
     if isinstance(func.output_name, tuple):
         new_output = []  # output in same order as func.output_name
         for output_name in func.output_name:
@@ -783,7 +792,7 @@ def _execute_single(
     # Load the output if it exists
     output, exists = _load_from_store(func.output_name, store, return_output=True)
     if exists:
-        return output
+        return _LoadedOutput(output)
 
     # Otherwise, run the function
     _load_arrays(kwargs)
